@@ -995,6 +995,16 @@ func checkC09(c *Ctx, r *Report) error {
 	}
 	// one renderer VALUE of every type handling models of different size in turn (reuse.go)
 	configs += rendererValueHistories(c, r, rng)
+	// custom sinks behind the public buffer constructors; deep octrees / quadtrees with skewed evaluation time (sinks.go)
+	{
+		t0 := time.Now()
+		srng := NewRng(c.Seed ^ 0x51_4B5)
+		configs += customSinks(c, r, srng)
+		r.Coverage["custom_sink_seconds"] = math.Round(time.Since(t0).Seconds()*10) / 10
+		t0 = time.Now()
+		configs += deepTrees(c, r, srng)
+		r.Coverage["deep_tree_seconds"] = math.Round(time.Since(t0).Seconds()*10) / 10
+	}
 	// what the path held before
 	runtime.GOMAXPROCS(16)
 	nfh, err := fileHistories(c, r, env, rng)
@@ -1042,7 +1052,7 @@ func checkC09(c *Ctx, r *Report) error {
 	r.Coverage["render_configurations"] = configs
 	r.Coverage["batchSize"] = B
 	r.Coverage["gomaxprocs"] = []int{1, 2, 3, 4, 8, 16}
-	r.Rule = "layer cases: one layerYZ.Evaluate of a (ny+1)*(nz+1) layer through the hook, with an evaluating wrapper that gives the j-th point the value j (and sleeps pseudo-randomly in half of the cases); recorded point->slot list compared with Sched.batch_plan by coqc, and layer = map f points checked directly; sizes: k*B-1, k*B, k*B+1 for k in 1,2,3,7 in every factorisation with ny<12, random small / medium / thin / large layers; non-trivial = more than one batch; distinct by (ny,nz,sleepy). render cases: one (model, renderer, sink) job rendered 1 + 6 + rounds times: alone under GOMAXPROCS=1 (reference), under GOMAXPROCS 2,3,4,8,16,1 in shuffled order with run-dependent sleeping Evaluate wrappers on half of them, and all jobs concurrently; triangle sequence hash / STL, DXF, SVG bytes / unzipped 3MF entries must be identical; non-trivial = always; distinct by job. process cases: fine-grid jobs (2D uniform/quadtree at 100..400 cells as exact segment sequences and DXF/SVG bytes, octree at 33..128 cells and uniform at 40..56 cells as exact triangle sequences and STL bytes) rendered 3+ times in one fresh process per GOMAXPROCS in 1,2,3,8,16, all processes at once; every observable must equal the first render of the GOMAXPROCS=1 process. file-history cases: each of ToSTL (uniform, octree), SaveSTL, To3MF, ToDXF, SaveDXF, ToSVG, SaveSVG writes a small render to a path that already holds a bigger render by the same writer / longer / equally long / shorter unrelated bytes / nothing; the bytes (3MF: unzipped entries) must equal those written to a fresh path. renderer-value histories: one value of each renderer type (uniform / octree cubes, uniform / quadtree squares, 2D dual contouring) is asked for Info / Render of four models of different size, position and shape in four orders (big then small, Info only then another model, repeats); Info strings and exact triangle / segment sequences must equal those of a fresh value. big-layer cases (biglayer.go): one layerYZ.Evaluate through the hook of a layer with about 2.5x, 20x and 100x (thorough: up to 400x) as many points as can be in flight at once ((queue capacity read from the source + evaluation routines + 1) * batch size), square / few long rows / many short rows, with an exact cheap field (point j has value j) whose chosen evaluations are HELD until a stated number of other evaluations of the layer have started: plain, first point of the first batch until all other batches are done, a point inside a batch, all routines but one starved and released in reverse dispatch order, rolling lag (every s-th batch held for 2x / 8x / 32x the in-flight bound), first point of every k-th batch slow, last point held until all others started and then slow; concurrent: the first point of a small (or big) layer A held while 1..3 very large layers of another field are evaluated from start to end; oracle: layer array = map f points cell by cell, every point evaluated once, no evaluation outside the layer; non-trivial = always; distinct by (ny,nz,timing). big-render case: MarchingCubesUniform of a thin plate model (3 cells thick, layers of about 40x the in-flight bound, surface through every cell column) into a hashing Triangle3Writer: plain render, render whose evaluations return the same values but every s-th of them (by ordinal of start, no hook) is held for 8x..32x the in-flight bound, plain render again; exact triangle sequences must be equal."
+	r.Rule = "layer cases: one layerYZ.Evaluate of a (ny+1)*(nz+1) layer through the hook, with an evaluating wrapper that gives the j-th point the value j (and sleeps pseudo-randomly in half of the cases); recorded point->slot list compared with Sched.batch_plan by coqc, and layer = map f points checked directly; sizes: k*B-1, k*B, k*B+1 for k in 1,2,3,7 in every factorisation with ny<12, random small / medium / thin / large layers; non-trivial = more than one batch; distinct by (ny,nz,sleepy). render cases: one (model, renderer, sink) job rendered 1 + 6 + rounds times: alone under GOMAXPROCS=1 (reference), under GOMAXPROCS 2,3,4,8,16,1 in shuffled order with run-dependent sleeping Evaluate wrappers on half of them, and all jobs concurrently; triangle sequence hash / STL, DXF, SVG bytes / unzipped 3MF entries must be identical; non-trivial = always; distinct by job. process cases: fine-grid jobs (2D uniform/quadtree at 100..400 cells as exact segment sequences and DXF/SVG bytes, octree at 33..128 cells and uniform at 40..56 cells as exact triangle sequences and STL bytes) rendered 3+ times in one fresh process per GOMAXPROCS in 1,2,3,8,16, all processes at once; every observable must equal the first render of the GOMAXPROCS=1 process. file-history cases: each of ToSTL (uniform, octree), SaveSTL, To3MF, ToDXF, SaveDXF, ToSVG, SaveSVG writes a small render to a path that already holds a bigger render by the same writer / longer / equally long / shorter unrelated bytes / nothing; the bytes (3MF: unzipped entries) must equal those written to a fresh path. renderer-value histories: one value of each renderer type (uniform / octree cubes, uniform / quadtree squares, 2D dual contouring) is asked for Info / Render of four models of different size, position and shape in four orders (big then small, Info only then another model, repeats); Info strings and exact triangle / segment sequences must equal those of a fresh value. big-layer cases (biglayer.go): one layerYZ.Evaluate through the hook of a layer with about 2.5x, 20x and 100x (thorough: up to 400x) as many points as can be in flight at once ((queue capacity read from the source + evaluation routines + 1) * batch size), square / few long rows / many short rows, with an exact cheap field (point j has value j) whose chosen evaluations are HELD until a stated number of other evaluations of the layer have started: plain, first point of the first batch until all other batches are done, a point inside a batch, all routines but one starved and released in reverse dispatch order, rolling lag (every s-th batch held for 2x / 8x / 32x the in-flight bound), first point of every k-th batch slow, last point held until all others started and then slow; concurrent: the first point of a small (or big) layer A held while 1..3 very large layers of another field are evaluated from start to end; oracle: layer array = map f points cell by cell, every point evaluated once, no evaluation outside the layer; non-trivial = always; distinct by (ny,nz,timing). big-render case: MarchingCubesUniform of a thin plate model (3 cells thick, layers of about 40x the in-flight bound, surface through every cell column) into a hashing Triangle3Writer: plain render, render whose evaluations return the same values but every s-th of them (by ordinal of start, no hook) is held for 8x..32x the in-flight bound, plain render again; exact triangle sequences must be equal. sink cases (sinks.go): a producer - scripted Write/Close histories with known content (chunks of 0..5 elements totalling k*B-1, k*B, k*B+1; single elements; whole-batch and larger chunks; mixtures; the caller reusing its chunk slice or not) and real renders (uniform / octree cubes of a sphere, uniform / quadtree squares and 2D dual contouring of a rounded box, several batches each) - writes through the PUBLIC sdf.NewTriangle3Buffer / sdf.NewLine2Buffer into a channel of capacity 0, 1, 2, 64 whose reader looks at batch i only after batch i+k has been received (k = 0, 1, 2, 3, or after the producer has finished) or sleeps 0.3 / 2 ms per batch, under GOMAXPROCS 1, 2, 16; the sequence of element VALUES seen must equal that seen by a prompt reader of an unbuffered channel (and the script); non-trivial = more than two batches; distinct by (producer, sink). deep-tree cases (sinks.go): MarchingCubesOctree of a rounded bar 2000x2x2 (along a random axis) and MarchingSquaresQuadtree of a rounded strip 2000x2 at 520..2100 cells on the long axis (12, 13 and 14 tree levels; slower tiers also 11 and 15) with wrappers that return the same distances but yield and spin in the evaluations of one half of the model (either half) or of alternate cubes of one of the three levels below the root (either parity), each under one (or two) and 16 CPUs; exact triangle / segment sequences must equal the plain render; non-trivial = more than 1000 triangles / 500 segments; distinct by (model, cells, GOMAXPROCS, skew)."
 	r.Trusted = append(r.Trusted,
 		"harness/effsum (see C10) for the premise that no map range, math/rand, time, unsynchronised shared store or extra go statement is reachable from Render/Evaluate; the whitelist is coq/Sys/Sched.v section 4",
 		"hook render.VerifLayerEvaluate (verif tag) calls evalOnce.Do(evalRoutines), newLayerYZ and layerYZ.Evaluate as marchingCubes does",
